@@ -49,19 +49,33 @@ theorem all_ite {P : Tok → Prop} {c : Prop} [Decidable c] {a b : List Tok} (ha
 
 /-! ### a declaration of an entity of the name map is printed with the leaf name the map gives it -/
 
+def DeclStrict (names : List Named) : Tok → Prop
+  | .decl _ _ n (.sym s) => n = leaf names s
+  | _ => True
+
+/-- the same with namespace blocks excepted (their name is a component of `get_name_qualified`) -/
 def DeclOk (names : List Named) : Tok → Prop
   | .decl _ k n (.sym s) => k = "N" ∨ n = leaf names s
   | _ => True
 
+theorem DeclStrict.weak {names : List Named} {tok : Tok} (h : DeclStrict names tok) : DeclOk names tok := by
+  unfold DeclOk
+  split
+  · exact Or.inr h
+  · trivial
+
+theorem all_imp {P Q : Tok → Prop} {l : List Tok} (h : ∀ tok, P tok → Q tok) (hl : All P l) : All Q l :=
+  fun tok ht => h tok (hl tok ht)
+
 theorem memberDecls_ok (names : List Named) (sc : Scope) (k : String) (mk : Nat → Ent)
-    (hmk : ∀ i s, mk i ≠ .sym s) : ∀ (ms : List String) (i : Nat), All (DeclOk names) (memberDecls sc k mk ms i) := by
+    (hmk : ∀ i s, mk i ≠ .sym s) : ∀ (ms : List String) (i : Nat), All (DeclStrict names) (memberDecls sc k mk ms i) := by
   intro ms
   induction ms with
   | nil => intro i; exact all_nil
   | cons m r ih =>
     intro i
     refine all_cons ?_ (ih _)
-    unfold DeclOk
+    unfold DeclStrict
     split
     · rename_i heq
       injection heq with _ _ _ h4
@@ -69,7 +83,7 @@ theorem memberDecls_ok (names : List Named) (sc : Scope) (k : String) (mk : Nat 
     · trivial
 
 theorem typeToks_ok (names : List Named) (sc : Scope) (p : Program) (g : Nat) :
-    All (DeclOk names) (typeToks sc names p g) := by
+    All (DeclStrict names) (typeToks sc names p g) := by
   unfold typeToks
   split
   · exact all_cons trivial all_nil
@@ -78,7 +92,7 @@ theorem typeToks_ok (names : List Named) (sc : Scope) (p : Program) (g : Nat) :
     · exact all_nil
 
 theorem memberTok_ok (names : List Named) (sc : Scope) (p : Program) (g : Nat) :
-    All (DeclOk names) (memberTok sc p g) := by
+    All (DeclStrict names) (memberTok sc p g) := by
   unfold memberTok
   split
   · split
@@ -91,7 +105,7 @@ theorem memberTok_ok (names : List Named) (sc : Scope) (p : Program) (g : Nat) :
   · exact all_nil
 
 theorem useToks_ok (t : Target) (names : List Named) (sc : Scope) (p : Program) (r : Ref) :
-    All (DeclOk names) (useToks t sc names p r) := by
+    All (DeclStrict names) (useToks t sc names p r) := by
   cases r <;> simp only [useToks]
   case glob k =>
     split
@@ -112,37 +126,37 @@ theorem useToks_ok (t : Target) (names : List Named) (sc : Scope) (p : Program) 
   case nothing => exact all_nil
 
 theorem bodyToks_ok (t : Target) (names : List Named) (sc : Scope) (p : Program) (body : List BTok) :
-    All (DeclOk names) (bodyToks t sc names p body) := by
+    All (DeclStrict names) (bodyToks t sc names p body) := by
   unfold bodyToks
   refine all_flatMap fun b _ => ?_
   cases b with
-  | lv k => exact all_cons (Or.inr rfl) all_nil
+  | lv k => exact all_cons (rfl) all_nil
   | op => exact all_cons trivial all_nil
   | cl => exact all_cons trivial all_nil
   | use r => exact useToks_ok _ _ _ _ _
 
 theorem defToks_ok (t : Target) (names : List Named) (p : Program) (d : Def) :
-    All (DeclOk names) (defToks t names p d) := by
+    All (DeclStrict names) (defToks t names p d) := by
   unfold defToks
   split
-  · exact all_append (all_append (all_append (all_cons (Or.inr rfl) (all_cons trivial all_nil))
+  · exact all_append (all_append (all_append (all_cons (rfl) (all_cons trivial all_nil))
       (memberDecls_ok names _ _ _ (fun _ _ => by simp) _ _))
-      (all_flatMap fun f _ => all_cons (Or.inr rfl) (all_cons trivial (all_cons trivial all_nil))))
+      (all_flatMap fun f _ => all_cons (rfl) (all_cons trivial (all_cons trivial all_nil))))
       (all_cons trivial all_nil)
-  · exact all_append (all_append (all_cons (Or.inr rfl) (all_cons trivial all_nil))
-      (all_map fun _ _ => Or.inr rfl)) (all_cons trivial all_nil)
-  · exact all_ite all_nil (all_cons (Or.inr rfl) all_nil)
-  · refine all_ite (all_ite (all_cons (Or.inr rfl) all_nil) all_nil) ?_
-    exact all_append (all_append (typeToks_ok _ _ _ _) (all_cons (Or.inr rfl) all_nil))
+  · exact all_append (all_append (all_cons (rfl) (all_cons trivial all_nil))
+      (all_map fun _ _ => rfl)) (all_cons trivial all_nil)
+  · exact all_ite all_nil (all_cons (rfl) all_nil)
+  · refine all_ite (all_ite (all_cons (rfl) all_nil) all_nil) ?_
+    exact all_append (all_append (typeToks_ok _ _ _ _) (all_cons (rfl) all_nil))
       (all_ite (all_cons trivial (all_cons trivial all_nil)) all_nil)
   · refine all_ite ?_ ?_
-    · exact all_append (all_append (all_cons (Or.inr rfl) (all_cons trivial all_nil))
+    · exact all_append (all_append (all_cons (rfl) (all_cons trivial all_nil))
         (memberDecls_ok names _ _ _ (fun _ _ => by simp) _ _)) (all_cons trivial all_nil)
     · exact all_append (all_append (all_cons trivial (all_cons trivial all_nil))
         (memberDecls_ok names _ _ _ (fun _ _ => by simp) _ _)) (all_cons trivial all_nil)
-  · exact all_append (all_append (all_append (all_append (all_cons (Or.inr rfl) (all_cons trivial all_nil))
-      (all_map fun _ _ => Or.inr rfl))
-      (all_ite (all_flatMap fun g _ => all_append (typeToks_ok _ _ _ _) (all_cons (Or.inr rfl) all_nil)) all_nil))
+  · exact all_append (all_append (all_append (all_append (all_cons (rfl) (all_cons trivial all_nil))
+      (all_map fun _ _ => rfl))
+      (all_ite (all_flatMap fun g _ => all_append (typeToks_ok _ _ _ _) (all_cons (rfl) all_nil)) all_nil))
       (bodyToks_ok _ _ _ _ _)) (all_cons trivial all_nil)
 
 theorem wrap_all {P : Tok → Prop} (names : List Named) (p : Program) (hcl : P .cl) (hop : P .op)
@@ -165,13 +179,13 @@ theorem wrap_all {P : Tok → Prop} (names : List Named) (p : Program) (hcl : P 
     · refine all_append (all_append (all_append (all_replicate hcl) ?_) (hl (ns, toks) (List.mem_cons_self ..))) (ih _ hrest)
       exact all_flatMap fun j _ => all_cons (hns ..) (all_cons hop all_nil)
 
-theorem inlinePrelude_ok (names : List Named) (p : Program) : All (DeclOk names) (inlinePrelude names p) := by
+theorem inlinePrelude_ok (names : List Named) (p : Program) : All (DeclStrict names) (inlinePrelude names p) := by
   unfold inlinePrelude
   refine all_flatMap fun s _ => ?_
-  exact all_append (all_append (all_cons trivial (all_cons trivial all_nil)) (all_map fun _ _ => Or.inr rfl))
+  exact all_append (all_append (all_cons trivial (all_cons trivial all_nil)) (all_map fun _ _ => rfl))
     (all_cons trivial (all_cons trivial (all_cons trivial all_nil)))
 
-theorem mslEpilogue_ok (names : List Named) (p : Program) : All (DeclOk names) (mslEpilogue names p) := by
+theorem mslEpilogue_ok (names : List Named) (p : Program) : All (DeclStrict names) (mslEpilogue names p) := by
   unfold mslEpilogue
   split
   · refine all_append (all_append (all_append (all_append (all_append ?_ (all_cons trivial (all_cons trivial all_nil))) ?_) ?_) ?_)
@@ -179,14 +193,14 @@ theorem mslEpilogue_ok (names : List Named) (p : Program) : All (DeclOk names) (
     · unfold argBufferToks
       refine all_flatMap fun i _ => ?_
       exact all_append (all_append (all_cons trivial (all_cons trivial all_nil))
-        (all_flatMap fun g _ => all_append (typeToks_ok _ _ _ _) (all_cons (Or.inr rfl) all_nil))) (all_cons trivial all_nil)
+        (all_flatMap fun g _ => all_append (typeToks_ok _ _ _ _) (all_cons (rfl) all_nil))) (all_cons trivial all_nil)
     · unfold wrapperParams
       refine all_append ?_ (all_flatMap fun i _ => all_cons trivial (all_cons trivial all_nil))
       split
-      · exact all_cons (Or.inr rfl) all_nil
+      · exact all_cons (rfl) all_nil
       · exact all_nil
     · unfold wrapperLocals
-      exact all_flatMap fun g _ => all_ite all_nil (all_cons (Or.inr rfl) all_nil)
+      exact all_flatMap fun g _ => all_ite all_nil (all_cons (rfl) all_nil)
     · unfold wrapperCall
       refine all_append (all_append (all_cons trivial all_nil) ?_) ?_
       · split
@@ -199,12 +213,49 @@ theorem mslEpilogue_ok (names : List Named) (p : Program) : All (DeclOk names) (
 blocks aside, whose name is a component of `get_name_qualified`) -/
 theorem emit_decl_ok (t : Target) (names : List Named) (p : Program) : All (DeclOk names) (emit t names p) := by
   unfold emit
-  refine all_append (all_append (all_ite (inlinePrelude_ok _ _) all_nil) ?_) (all_ite (mslEpilogue_ok _ _) all_nil)
+  refine all_append (all_append (all_ite (all_imp (fun _ => DeclStrict.weak) (inlinePrelude_ok _ _)) all_nil) ?_)
+    (all_ite (all_imp (fun _ => DeclStrict.weak) (mslEpilogue_ok _ _)) all_nil)
   refine wrap_all names p trivial trivial (fun _ _ e => ?_) _ _ ?_
   · cases e <;> first | exact Or.inl rfl | trivial
   · intro x hx
     obtain ⟨d, _, rfl⟩ := List.mem_map.mp hx
-    exact defToks_ok _ _ _ _
+    exact all_imp (fun _ => DeclStrict.weak) (defToks_ok _ _ _ _)
+
+/-- a program without namespaces: no namespace block is opened, the definitions follow one another -/
+theorem wrap_flat (names : List Named) (p : Program) :
+    ∀ (l : List (Option Nat × List Tok)), (∀ x ∈ l, x.1 = none) → wrap names p [] l = l.flatMap (·.2) := by
+  intro l
+  induction l with
+  | nil => intro _; simp [wrap]
+  | cons x rest ih =>
+    intro h
+    obtain ⟨ns, toks⟩ := x
+    have hns : ns = none := h (ns, toks) (List.mem_cons_self ..)
+    subst hns
+    have hrest := ih (fun y hy => h y (List.mem_cons_of_mem _ hy))
+    simp only [wrap, List.flatMap_cons]
+    split
+    · rename_i hc
+      have : toks = [] := by simpa using hc
+      subst this
+      simpa using hrest
+    · simp [nsPath, commonPrefix, hrest]
+
+theorem emit_flat (t : Target) (names : List Named) (p : Program) (hflat : ∀ d ∈ p.defs, d.ns = none) :
+    emit t names p = (if t == .vkba then inlinePrelude names p else []) ++
+      p.defs.flatMap (defToks t names p) ++ (if t.isMsl then mslEpilogue names p else []) := by
+  unfold emit
+  rw [wrap_flat]
+  · simp [List.flatMap_map]
+  · intro x hx
+    obtain ⟨d, hd, rfl⟩ := List.mem_map.mp hx
+    exact hflat d hd
+
+theorem emit_flat_strict (t : Target) (names : List Named) (p : Program) (hflat : ∀ d ∈ p.defs, d.ns = none) :
+    All (DeclStrict names) (emit t names p) := by
+  rw [emit_flat t names p hflat]
+  exact all_append (all_append (all_ite (inlinePrelude_ok _ _) all_nil) (all_flatMap fun d _ => defToks_ok _ _ _ _))
+    (all_ite (mslEpilogue_ok _ _) all_nil)
 
 /-! ### a file-scope declaration of a struct / enum / global / function sits in the namespace the registries record -/
 
